@@ -20,11 +20,11 @@ import (
 type NodeKind int
 
 const (
-	NInstr NodeKind = iota
-	NTrue           // taken edge of an If (cond true)
-	NFalse          // cond false
-	NEntry          // entry of an (expanded) function
-	NCallRet        // return point of an expanded call
+	NInstr   NodeKind = iota
+	NTrue             // taken edge of an If (cond true)
+	NFalse            // cond false
+	NEntry            // entry of an (expanded) function
+	NCallRet          // return point of an expanded call
 )
 
 type Node struct {
